@@ -270,6 +270,12 @@ func TestCheck(t *testing.T) {
 	defer r.Write()
 	r.Assumption("sequentially consistent interleavings at synchronisation operations; setup (task start) and final teardown take the default schedule")
 	r.Assumption("'accepted before the stop' = WritePoints returned nil before the stop call began")
+	if n := vsched.FreeRuns(); n > 0 {
+		for _, sc := range scenarios() {
+			r.Add("race_pass_runs", int64(vsched.FreeRun(t, harness(sc), n)))
+		}
+		return
+	}
 	if rep.ReplayPath() != "" {
 		var rp Replay
 		if err := rep.LoadReplay(&rp); err != nil {
